@@ -167,7 +167,7 @@ pub fn run(ctx: &Ctx, rep: &mut Report) {
                     }
                     if cuts.len() == 1 {
                         // the lists need not be adjacent: foreign attributes in between
-                        let far: String = groups[1..].iter().map(|g| format!("#[doc = \" d\"] #[derive_ex({})] #[allow(dead_code)] ", text(g))).collect();
+                        let far: String = groups[1..].iter().map(|g| format!("#[doc = \" d\"] #[derive_ex({})] #[doc(hidden)] ", text(g))).collect();
                         jobs.push(Job { seed: si, kind: "split-nonadjacent", entry: Entry::Attr, attr: text(&groups[0]), item: format!("{far}{}", s.item), traits: s.traits.clone(), map: id.clone() });
                         jobs.push(Job { seed: si, kind: "split-nonadjacent", entry: Entry::Derive, attr: String::new(), item: format!("#[derive_ex({})] {far}{}", text(&groups[0]), s.item), traits: s.traits.clone(), map: id.clone() });
                     }
@@ -281,7 +281,7 @@ pub fn run(ctx: &Ctx, rep: &mut Report) {
                 let id: Vec<usize> = (0..k).collect();
                 let fwd: String = per.iter().map(|p| format!("#[derive_ex({p})] ")).collect();
                 let rev: String = per.iter().rev().map(|p| format!("#[derive_ex({p})] ")).collect();
-                let far: String = per.iter().map(|p| format!("#[doc = \" d\"] #[derive_ex({p})] #[allow(dead_code)] ")).collect();
+                let far: String = per.iter().map(|p| format!("#[doc = \" d\"] #[derive_ex({p})] #[doc(hidden)] ")).collect();
                 for split in [fwd, rev, far] {
                     for entry in Entry::BOTH {
                         let item = shape.replace('§', split.trim_end());
